@@ -387,6 +387,20 @@ func runC11(c *engine.Ctx) {
 			evalC11Decode(c, f, t, v%16 == 0 || (v >= 120 && v <= 264))
 		}
 	}
+	// AES-CBC with a TLV-encoded attribute of type 14 of every length 1..300 (a decoder that confuses the TLV
+	// length word with a TV value accepts lengths 128 / 192 / 256)
+	for n := 1; n <= 300; n++ {
+		if !c.Mine() {
+			continue
+		}
+		for _, fill := range []byte{0x00, 0x80} {
+			t := ref.Transform{Type: 1, ID: ref.EncrAESCBC, HasAttr: true, AType: 14, AVar: univ.Fill(n, fill)}
+			for _, f := range fns[:2] {
+				evalC11Decode(c, f, t, false)
+				evalC11Decode(c, f, t, true)
+			}
+		}
+	}
 	// (d) unsupported transform in each slot
 	for slot := 1; slot <= 5; slot++ {
 		for _, t := range []ref.Transform{{ID: 3}, {ID: 12}, {ID: 12, HasAttr: true, TV: true, AType: 14, AValue: 64}, {ID: 12, HasAttr: true, TV: true, AType: 142, AValue: 128},
